@@ -2167,6 +2167,10 @@ class HCI_Object:
                 ),
             )
 
+        if not field_strings:
+            # Only empty lists
+            return ''
+
         # Measure the widest field name
         max_field_name_length = max(len(s[0]) for s in field_strings)
         sep = ':'
